@@ -335,7 +335,10 @@ def runner_phase(run, tier, workdir, binary, rng, tag="runners"):
                         raise vlib.Infra("monitor could not consume a trace: " + f["tlc"][:400])
                     drift += 1
                     if drift <= 2:
-                        vlib.log("DRIFT module=Container (runners) scenario=%s line=%d" % (sc["id"], f["line"]))
+                        g_ = groups[f["group"]]
+                        vlib.log("DRIFT module=Container (runners) scenario=%s line=%d next_event=%s" % (
+                            sc["id"], f["line"], g_[f["line"] - 1][:300] if f["line"] - 1 < len(g_) else "-"))
+                        vlib.log("   scenario: %s" % json.dumps({k: sc[k] for k in ("single", "slice", "lazy", "fail", "rorder", "ilook", "plainRig", "extra", "mode", "wrap")}))
                     continue
                 report(run, run.prop, layer, f, sc, groups[f["group"]])
         for g in groups:
